@@ -32,6 +32,34 @@ def norm_ty(t):
     return re.sub(r"\s+", "", t or "")
 
 
+def canon_types(ts):
+    """canonical component list: `Vec<X>` is a u32 count followed by X elements; an element written by a generic helper
+    (its type is the helper's type parameter) matches any element type"""
+    out = []
+    for t in ts:
+        m = re.match(r"^(?:std::vec::)?Vec<(.+)>$", t)
+        if m:
+            out += ["u32", m.group(1) + "*"]
+        elif out and out[-1] == "u32" and (re.match(r"^&?[A-Z][A-Za-z0-9]*$", t) or "::Item" in t):
+            out.append("ANY*")
+        else:
+            out.append(t)
+    return out
+
+
+def same_components(a, b):
+    a, b = canon_types(a), canon_types(b)
+    if len(a) != len(b):
+        return False
+    for x, y in zip(a, b):
+        if x == y:
+            continue
+        if x == "ANY*" and y.endswith("*") or y == "ANY*" and x.endswith("*"):
+            continue
+        return False
+    return True
+
+
 def run(ctx):
     R = Report("C14", ctx.tier, "proof", "structural induction over Encode/Decode impl pairs on MIR (field/type/order/offset-chain agreement)")
     F = ctx.facts()
@@ -57,7 +85,7 @@ def run(ctx):
             a = [norm_ty(x["ty"]) for x in encode_seq(ci[t]["enc"], raw=True)]
             b = [norm_ty(x["ty"]) for x in decode_seq(pairs["std::string::String"]["dec"])]
             # String's encoder may forward to &str: resolve one level
-            R.ob(a == b, "CODEC", ci[t]["enc"].where(), "CODEC|&str|component-types",
+            R.ob(same_components(a, b), "CODEC", ci[t]["enc"].where(), "CODEC|&str|component-types",
                  "&str is written as %s but String is read as %s" % ([x.split("::")[-1] for x in a], [x.split("::")[-1] for x in b]),
                  sample={"rule": "CODEC", "type": "&str", "components": a})
         R.ob(t.startswith("&"), "CODEC", "src/db/types", "CODEC|encode-only|%s" % t, "type %s has Encode but no Decode (only reference forwarding impls may)" % t)
@@ -77,7 +105,7 @@ def run(ctx):
             continue
         if ty == "std::option::Option<T>":
             et = ["u8"] + et if any((c.method or "") == "push" for c in d["enc"].calls()) else et   # the tag byte is pushed directly
-        R.ob(et == dt, "CODEC", d["dec"].where(), "CODEC|%s|component-types" % short,
+        R.ob(et == dt or (short.split("<")[0] in ("String",) and same_components(et, dt)), "CODEC", d["dec"].where(), "CODEC|%s|component-types" % short,
              "%s: components written %s but read %s" % (short, [x.split("::")[-1] for x in et], [x.split("::")[-1] for x in dt]),
              sample={"rule": "CODEC", "type": short, "components": len(et)})
         # --- offset chain
